@@ -765,5 +765,10 @@ func init() {
 		if c.Args["ksobj"] != "0" {
 			walletKeyStoreSequences(c)
 		}
+		// 11. a key file depends on nothing but entropy, password, salt and nonce: scheduler widths, objects held while the
+		//     random source is drained, private random slices
+		if c.Args["env"] != "0" {
+			walletEnvIndependence(c, dir)
+		}
 	})
 }
